@@ -111,12 +111,36 @@ impl PosOracle for C08 {
                 return Err(Finding::new("std-hash", "by the in-place make_move", "equal boards, different std hash".to_string()));
             }
             run.add("arrivals_through_make_move_in_place", 1);
+            // the same with output boards that already hold a sibling of the source (same placement with another
+            // state; same squares with exchanged kinds): whatever the output then holds, its hash must be the hash
+            // of exactly that position
+            for init in prefill_siblings_of(pre) {
+                let out = guard::lib(move || {
+                    let mut out = init;
+                    src.make_move(lm, &mut out);
+                    out
+                })
+                .map_err(|e| Finding::new("panic", "make_move panicked", e))?;
+                let held = unpack(&pack(&observe(&out)));
+                let fs = guard::lib(|| from_scratch(&held)).map_err(|e| Finding::new("panic", "from-scratch panicked", e))?;
+                match fs {
+                    Ok(fs) => {
+                        if fs.get_hash() != out.get_hash() {
+                            return Err(Finding::new("incremental-hash", "by the in-place make_move into a board that held a sibling of the source", format!("after make_move({m}) into a board holding {} the output holds {} with get_hash() {:#018x}; that position built from scratch hashes to {:#018x}", init, held.fen(), out.get_hash(), fs.get_hash())));
+                        }
+                    }
+                    Err(e) => {
+                        return Err(Finding::new("incremental-hash", "the in-place make_move leaves an impossible board", format!("after make_move({m}) into a board holding {} the output holds {}, which cannot be built: {e}", init, held.fen())));
+                    }
+                }
+                run.add("arrivals_through_make_move_in_place", 1);
+            }
         }
         Ok(())
     }
 }
 
-pub const RULE: &str = "every ARRIVAL (transition, transpositions included; paths through up to 2 null moves; each move applied through make_move_new and through the in-place make_move) at every state of the bounded trees, families and children: incrementally maintained get_hash() == get_hash() of the same position built from scratch through the builder; a run-wide map observable position -> hash must stay single-valued; get_hash() survives to_string/from_str; boards equal under == have equal std Hash output. distinct_nontrivial = distinct observable positions that were arrived at more than once (transpositions / repeated constructions)";
+pub const RULE: &str = "every ARRIVAL (transition, transpositions included; paths through up to 2 null moves; each move applied through make_move_new and through the in-place make_move, the latter into a default board and into every valid sibling of the source: same placement with other rights / en-passant state / side, same squares with two men exchanged) at every state of the bounded trees, families and children: incrementally maintained get_hash() == get_hash() of the same position built from scratch through the builder; a run-wide map observable position -> hash must stay single-valued; get_hash() survives to_string/from_str; boards equal under == have equal std Hash output. distinct_nontrivial = distinct observable positions that were arrived at more than once (transpositions / repeated constructions)";
 
 pub fn run(tier: Tier) -> i32 {
     let (run, oracle) = run_e1("C08", tier, COUNTERS, C08 { seen: ShardMap::new(), repeated: ShardMap::new() }, with_line_geometry(with_ep_slider_positions(standard_plan(tier, 1), tier), true, tier.pick(0, 1)), RULE, &["observable positions are keyed by a 128-bit fingerprint in the single-valuedness map"]);
